@@ -8,7 +8,9 @@ import (
 	"encoding/hex"
 	"errors"
 	"fmt"
+	"io"
 	"net"
+	"time"
 
 	"gitlab.com/yawning/obfs4.git/internal/zzverif/mc"
 	"gitlab.com/yawning/obfs4.git/internal/zzverif/o4h"
@@ -811,6 +813,8 @@ func establish(s *sched.Sched, role string, br *o4h.Bridge, sf base.ServerFactor
 //	    bytes arrive in the same Read as the end (the wire's CoalesceEnd mode);
 //	other-conn-write-failure/<n>: the n-th wire write of ANOTHER connection of
 //	    the same process fails; this connection's stream must be unaffected.
+var sessionPauses = []time.Duration{time.Second, 29 * time.Second, 2 * time.Second, 61 * time.Second, 10 * time.Minute, 25 * time.Hour}
+
 func edgeScenario(name, role string, iat int, kind string, arg int, seed int64) mc.Scenario {
 	return mc.Scenario{
 		Name:   name,
@@ -825,6 +829,7 @@ func edgeScenario(name, role string, iat int, kind string, arg int, seed int64) 
 			var inbound, outbound []byte
 			var p, other *pairT
 			finished := false
+			pausedRound := 0
 			res := sched.Run(c, sched.Options{NoPreempt: true, NoEarlyTimers: true, MaxSteps: 3_000_000}, func() {
 				s := sched.Cur()
 				var sf base.ServerFactory
@@ -859,6 +864,48 @@ func edgeScenario(name, role string, iat int, kind string, arg int, seed int64) 
 					if p.hsErr == nil {
 						p.real.CoalesceEnd = true
 					}
+				case "paused-session":
+					// rounds of traffic in both directions separated by idle periods
+					// longer than every handshake timeout; arg 0: this endpoint pauses
+					// before it writes, arg 1: the peer pauses while this endpoint
+					// waits in Read
+					const blk = 300
+					inbound, outbound = o4h.Pattern('I', 0, blk*len(sessionPauses)), o4h.Pattern('O', 0, blk*len(sessionPauses))
+					p = establish(s, role, br, sf, "", rnd.New(seed, "c01-ref-"+name), func(p *pairT) {
+						for r := range sessionPauses {
+							for len(p.rs.Payload) < (r+1)*blk {
+								if _, err := p.rs.RecvOnce(); err != nil {
+									return
+								}
+							}
+							if arg == 1 {
+								sched.Sleep(sessionPauses[r])
+							}
+							p.rs.Send(inbound[r*blk:(r+1)*blk], 0)
+						}
+					})
+					if p.hsErr != nil {
+						return
+					}
+					rb := make([]byte, blk)
+					for r := range sessionPauses {
+						if arg == 0 {
+							sched.Sleep(sessionPauses[r])
+						}
+						pausedRound = r
+						if _, wrErr = p.conn.Write(outbound[r*blk : (r+1)*blk]); wrErr != nil {
+							return
+						}
+						n, err := io.ReadFull(p.conn, rb)
+						got = append(got, rb[:n]...)
+						if err != nil {
+							rdErr = err
+							return
+						}
+					}
+					s.Point("peer-done", func() bool { return p.refDone })
+					finished = true
+					return
 				case "other-conn-write-failure":
 					outbound = o4h.Pattern('O', 0, 2000)
 					other = establish(s, role, br, sf, "-other", rnd.New(seed, "c01-ref-other-"+name), func(p *pairT) {
@@ -934,6 +981,21 @@ func edgeScenario(name, role string, iat int, kind string, arg int, seed int64) 
 					fail(c, "delivery", "edge/close-with-data/lost", "the peer wrote %d bytes and ended; its last bytes arrived together with the end of the stream: the endpoint delivered only %d bytes (then %v)", len(inbound), len(got), rdErr)
 				} else if rdErr == nil {
 					fail(c, "delivery", "edge/close-with-data/no-end", "the stream ended but Read never reported it")
+				}
+			case "paused-session":
+				var sofar time.Duration
+				for r := 0; r <= pausedRound; r++ {
+					sofar += sessionPauses[r]
+				}
+				who := []string{"this endpoint", "the peer"}[arg]
+				if wrErr != nil {
+					fail(c, "io-error", "edge/paused-session/write", "established %s connection, %s idle for %v (%v of pauses since the handshake): Write failed with %v", role, who, sessionPauses[pausedRound], sofar, wrErr)
+				} else if rdErr != nil {
+					fail(c, "io-error", "edge/paused-session/read", "established %s connection, %s idle for %v (%v of pauses since the handshake): Read failed with %v", role, who, sessionPauses[pausedRound], sofar, rdErr)
+				} else if !finished || !bytes.Equal(got, inbound) {
+					fail(c, "delivery", "edge/paused-session/inbound", "over a session with pauses the peer wrote %d bytes, the endpoint delivered %d (finished=%v, blocked %+v)", len(inbound), len(got), finished, res.Blocked)
+				} else if p.rs.RxErr != nil || !bytes.Equal(p.rs.Payload, outbound) {
+					fail(c, "delivery", "edge/paused-session/outbound", "over a session with pauses the endpoint wrote %d bytes, the peer decoded %d (error: %v)", len(outbound), len(p.rs.Payload), p.rs.RxErr)
 				}
 			case "other-conn-write-failure":
 				if otherErr == nil {
@@ -1020,6 +1082,9 @@ func main() {
 				}
 				for _, n := range []int{0, 1, 2} {
 					emit(edgeScenario(fmt.Sprintf("edge/%s/iat%d/other-conn-write-failure/%d", role, iat, n), role, iat, "other-conn-write-failure", n, cfg.Seed))
+				}
+				for who := 0; who <= 1; who++ {
+					emit(edgeScenario(fmt.Sprintf("edge/%s/iat%d/paused-session/%s-pauses", role, iat, []string{"real", "peer"}[who]), role, iat, "paused-session", who, cfg.Seed))
 				}
 			}
 			for _, iat := range []int{0, 2} {
